@@ -1,4 +1,6 @@
 //! `drive <mode> <jobs.ndjson> <trace.ndjson>`: run jobs against real salsa, record traces.
+#[cfg(feature = "hooks")]
+mod codec;
 mod items;
 mod log;
 mod par;
@@ -17,6 +19,11 @@ fn main() {
     std::panic::set_hook(Box::new(|_| {}));
     install_sink();
     let mode = args[1].as_str();
+    #[cfg(feature = "hooks")]
+    if mode == "codec" {
+        codec::run(&args[2], &args[3]);
+        return;
+    }
     let jobs = std::io::BufReader::new(std::fs::File::open(&args[2]).expect("open jobs"));
     log::open(&args[3]);
     let mut n = 0;
